@@ -426,6 +426,7 @@ class World:
         self.tiebreak = list(tiebreak)
         self._tb = 0
         self.seam_calls = 0
+        self._idle_polls = 0
         self.seam_cap = seam_cap
         self.faults: dict[str, int] = {}
         self.probes: dict[str, int] = {}
@@ -524,6 +525,19 @@ class World:
             self.on_block(timeout)
         deadline = None if timeout is None else self.clock.now + timeout
         self.apply_due()
+        if timeout == 0 and not ready_fn():
+            # A program that polls with a zero timeout in a loop (busy waiting) burns real time; virtual time would stand
+            # still and the events it is waiting for would never arrive.  After a long run of fruitless zero-timeout polls
+            # the clock is moved to the next external event, as the wall clock would have been.
+            self._idle_polls += 1
+            if self._idle_polls > 300 and self.ext:
+                self._idle_polls = 0
+                self.probe("busy_wait_skipped_to_next_event")
+                self.log.add("busy-wait", "clock moved to the next external event")
+                self.clock.now = max(self.clock.now, self.ext[0][0])
+                self.apply_due()
+        else:
+            self._idle_polls = 0
         while True:
             r = ready_fn()
             if r:
